@@ -144,6 +144,7 @@ macro_rules! harnesses {
 pub mod refcbor;
 pub mod refcbor_dec;
 pub mod common;
+pub mod c03;
 pub mod c11;
 pub mod c14;
 #[cfg(not(kani))]
@@ -152,6 +153,22 @@ pub mod e2n;
 pub mod battery;
 
 harnesses! {
+    c03_tx_input [stub 5] => c03::tx_input;
+    c03_value_ada [stub 5] => c03::value_ada;
+    c03_value_1x2 [stub 5] => c03::value_1x2;
+    c03_value_2x1 [stub 5] => c03::value_2x1;
+    c03_output_legacy [stub 5] => c03::output_legacy;
+    c03_output_legacy_datahash [stub 5] => c03::output_legacy_datahash;
+    c03_output_inline_datum [stub 5] => c03::output_inline_datum;
+    c03_output_script_ref_and_datahash [stub 5] => c03::output_script_ref_and_datahash;
+    c03_small_structs [stub 5] => c03::small_structs;
+    c03_cert_stake_reg_dereg [stub 5] => c03::cert_stake_reg_dereg;
+    c03_cert_delegations [stub 5] => c03::cert_delegations;
+    c03_cert_votes [stub 5] => c03::cert_votes;
+    c03_cert_governance [stub 5] => c03::cert_governance;
+    c03_withdrawals_and_mint [stub 5] => c03::withdrawals_and_mint;
+    c03_redeemer_enc [stub 5] => c03::redeemer_enc;
+    c03_size_bounds [stub 5] => c03::size_bounds;
     e2n_min_fee_for_size [native 0] => e2n::min_fee_for_size;
     e2n_ex_units_cost [native 0] => e2n::ex_units_cost;
     e2n_ref_script_fee [native 0] => e2n::ref_script_fee;
@@ -160,6 +177,7 @@ harnesses! {
     e2n_c05_gate [native 0] => e2n::c05_gate;
     e2n_c07_min_ada [native 0] => e2n::c07_min_ada;
     e2n_c19_collateral [native 0] => e2n::c19_collateral;
+    e2n_bigint_narrowing [native 0] => e2n::bigint_narrowing;
     e2n_c18_cert_signers [native 0] => e2n::c18_cert_signers;
     e2n_builder_battery [native 0] => battery::builder_battery;
     c11_enc_base [stub 4] => c11::enc_base;
